@@ -13,6 +13,7 @@ static void fv_stats(void) {
 int fv_read_cxx(char *buf, size_t max_size) {
     long want, left;
     fv_read_calls++;
+    if (fv_logreads >= 2) printf("rq %ld\n", (long) max_size);
     left = fv_srclen[0] - fv_off[0];
     want = fv_nsched ? fv_sched[fv_schedpos++ % fv_nsched] : (long) max_size;
     if (want < 1) want = 1;
